@@ -14,9 +14,7 @@ class Parser(object):
     """
     tokens = lexer.tokens
     precedence = (
-        ('left', 'EQUAL'),
-        ('left', 'LESSEQ', 'GREATEREQ', 'NOTEQUAL'),
-        ('left', 'GREATER', 'LESS'),
+        ('left', 'EQUAL', 'LESSEQ', 'GREATEREQ', 'NOTEQUAL', 'GREATER', 'LESS'),
         ('left', 'PLUS', 'MINUS'),
         ('left', 'MULT', 'DIV'),
         ('left', 'CARET'),
